@@ -123,6 +123,14 @@ def meme_rules(repo):
         return [unrecognised("R-FLUSH", fi, role, "line loop not found")]
     loop = loops[0]
     pm = parent_map(fi.node)
+    # named hazard: a text-to-matrix parser that squeezes a single row to 1-D (numpy.loadtxt / genfromtxt without ndmin=2): a motif of width 1
+    # then comes back with shape (4,) instead of (4, 1)
+    for n_ in walk_no_nested(fi.node):
+        if isinstance(n_, ast.Call) and dotted(n_.func) in ("numpy.loadtxt", "numpy.genfromtxt", "np.loadtxt", "np.genfromtxt"):
+            nd = kwarg(n_, "ndmin")
+            if nd is None or const_value(nd) != 2:
+                return [named("MEME", fi, "every motif is returned as a 2-d (alphabet, width) matrix, also for width 1",
+                              "`%s` returns a 1-d array for a block of ONE row (no ndmin=2): a width-1 motif loses its position axis" % unparse(n_)[:60], n_)]
     commits = [s for s in walk_no_nested(loop) if isinstance(s, ast.Assign) and isinstance(s.targets[0], ast.Subscript)
                and unparse(s.targets[0].value) == "motifs"]
     rows = [s for s in walk_no_nested(loop) if isinstance(s, ast.Assign) and isinstance(s.targets[0], ast.Subscript)
